@@ -920,8 +920,9 @@ func runLife(p *pki, cfg, seq string) (lifeObs, bool) {
 			tag := fmt.Sprintf("op %d (%c)", i, op)
 			switch op {
 			case 'S':
+				wasRunning := running
 				err := s.srv.Start()
-				if err != nil && strings.Contains(err.Error(), "address already in use") {
+				if err != nil && !wasRunning && strings.Contains(err.Error(), "address already in use") {
 					portRace = true
 				}
 				o.Steps = append(o.Steps, fmt.Sprintf("S:%v", err == nil))
@@ -935,6 +936,9 @@ func runLife(p *pki, cfg, seq string) (lifeObs, bool) {
 				} else if cfg == "both-badtls" {
 					// a failed Start promises nothing about serving; a following Stop must release whatever was opened
 					running = false
+				} else if wasRunning {
+					// Start on a running server fails; the server was started without error and Stop was not called: it serves
+					checkServing(tag + " (Start on a running server returned an error)")
 				}
 			case 'X':
 				err := s.srv.Stop()
